@@ -251,6 +251,7 @@ def check_first_select(ctx) -> None:
 
 class C17(Profile):
     id = 'C17'
+    BACKENDS = ('dict', 'dict', 'dict', 'maildir')
     level = 'exploration'
     quick_budget_s = 40.0
     thorough_budget_s = 420.0
@@ -271,7 +272,9 @@ class C17(Profile):
     components = C01.components
 
     def gen(self, rng, tier):
-        return gen_recent_case(rng, tier)
+        from .common import backends, finish_cfg
+        return finish_cfg(gen_recent_case(
+            rng, tier, backends=backends(self.BACKENDS)), rng)
 
     def run(self, case, trace=False):
         def after(ctx, i, step, cmds):
